@@ -10,6 +10,7 @@ import (
 	"sort"
 	"strings"
 	"testing"
+	"unicode/utf8"
 
 	"github.com/jhalter/mobius/verifhooks"
 	"golang.org/x/crypto/bcrypt"
@@ -88,14 +89,9 @@ func (s *c15state) genName(label string) string {
 	var n string
 	switch rapid.IntRange(0, 3).Draw(s.rt, label+"_k") {
 	case 0:
-		n = rapid.SampledFrom([]string{"", "Name", "Na\nme", "N: {y}", "caf\xe9 \xff", strings.Repeat("n", 200)}).Draw(s.rt, label)
+		n = rapid.SampledFrom([]string{"", "Name", "Na\nme", "N: {y}", "caf\xe9 \xff", strings.Repeat("n", 200), "\nlead", "\ttab\nline", "\t\n", "\n", "\u2028x\ny", " sp\nline"}).Draw(s.rt, label)
 	default:
 		n = string(genBytes(s.rt, label, rapid.IntRange(0, 24).Draw(s.rt, label+"_len")))
-	}
-	if strings.HasPrefix(n, "\n") {
-		// known finding C15/yaml-leading-newline (decided by TestC15LeadingNewline): excluded here so the search continues
-		s.ev.Exclude("name with a leading newline (known finding yaml-leading-newline)")
-		n = "_" + n[1:]
 	}
 	return n
 }
@@ -514,26 +510,31 @@ func TestC15LeadingNewline(t *testing.T) {
 	ev := evid.New("C15", "TestC15LeadingNewline")
 	defer ev.Flush()
 	rapid.Check(t, func(rt *rapid.T) {
-		name := "\n" + string(genBytes(rt, "rest", rapid.IntRange(0, 12).Draw(rt, "len")))
+		name := rapid.SampledFrom([]string{"\n", "\t\n", "\u2028\n", "\t", " \n", "\r\n"}).Draw(rt, "lead") + string(genBytes(rt, "rest", rapid.IntRange(0, 12).Draw(rt, "len")))
 		name = strings.ReplaceAll(name, "\x00", "0")
+		inLogin := rapid.Bool().Draw(rt, "inLogin") && utf8.ValidString(name)
 		inWorld(rt, hlsim.Options{Accounts: []hlsim.AccountSpec{acct("admin", "Admin", "adminpw", allAccess)}, Agreement: "a"}, func(rt *rapid.T, w *hlsim.World) {
 			admin := loginAs(rt, w, "10.1.0.1:1", "admin", "adminpw", "admin")
 			acc := hlref.AccessOf(hlref.PrivDownloadFile)
-			r := admin.Request(hlref.TranNewUser, hlref.F(hlref.FUserLogin, hlref.Obfuscate([]byte("nl"))), hlref.F(hlref.FUserName, []byte(name)),
+			login := "nl"
+			if inLogin {
+				login, name = strings.ReplaceAll(name, "/", "_"), "plain"
+			}
+			r := admin.Request(hlref.TranNewUser, hlref.F(hlref.FUserLogin, hlref.Obfuscate([]byte(login))), hlref.F(hlref.FUserName, []byte(name)),
 				hlref.F(hlref.FUserPassword, hlref.Obfuscate([]byte("pw"))), hlref.F(hlref.FUserAccess, acc[:]))
 			if r == nil || r.Err != 0 {
 				rt.Fatalf("new-user refused")
 			}
 			am, err := verifhooks.NewYAMLAccountManager(w.UsersDir)
 			if err != nil {
-				rt.Fatalf("fresh manager: %v", err)
+				rt.Fatalf("after creating the account login=%q name=%q the accounts directory cannot be loaded any more: %v", login, name, err)
 			}
-			g := am.Get("nl")
-			if g == nil || g.Name != name {
-				if ev.IsKnown("yaml-leading-newline") {
-					return
-				}
-				rt.Fatalf("account name %q is %q after reloading the accounts directory", name, g.Name)
+			g := am.Get(login)
+			if g == nil {
+				rt.Fatalf("account login=%q name=%q is missing after reloading the accounts directory (loaded: %d accounts)", login, name, len(am.List()))
+			}
+			if g.Name != name || g.Login != login {
+				rt.Fatalf("account login=%q name=%q is login=%q name=%q after reloading the accounts directory", login, name, g.Login, g.Name)
 			}
 		})
 		ev.Case(evid.Hash(name), true, "leading-newline-name")
